@@ -9,6 +9,7 @@ pub mod c05;
 pub mod c12;
 pub mod c13;
 pub mod c14;
+pub mod c15;
 pub mod c16;
 pub mod c07;
 pub mod c08;
@@ -40,6 +41,7 @@ pub fn run(ctx: &Ctx) -> bool {
         "C12" => c12::run(ctx),
         "C13" => c13::run(ctx),
         "C14" => c14::run(ctx),
+        "C15" => c15::run(ctx),
         "C16" => c16::run(ctx),
         "C08" => c08::run(ctx),
         _ => return false,
